@@ -11,9 +11,11 @@ Inductive pclass := ClsBMV | ClsSmartBMV | ClsMPPT | ClsMPPTLoad | ClsPhoenix | 
 Definition rating (o : prod_obs) : Z :=
   match parse_panel (p_model o) with Some (_, i) => i | None => p_maxi o end.
 
-(* product class from type and current rating (type numbers as in veproduct.Type) *)
+(* product class from type and current rating (type numbers as in veproduct.Type); a known
+   product is one the exported string map lists (the map is built from the product table's
+   keys), so that a lookup that invents products cannot vouch for its own register lists *)
 Definition class_of (o : prod_obs) : pclass :=
-  if negb (p_exists o) then ClsUnsupported
+  if negb (p_exists o) || (match p_mapentry o with Some _ => false | None => true end) then ClsUnsupported
   else if p_type o =? 1 then ClsBMV                                  (* BMV *)
   else if (p_type o =? 2) || (p_type o =? 10) then ClsSmartBMV       (* BMV Smart, SmartShunt *)
   else if (p_type o =? 3) || (p_type o =? 4) then                    (* BlueSolar / SmartSolar MPPT *)
